@@ -509,6 +509,57 @@ def _r6(chk: Check) -> None:
                     '%d bounds, %d combinations: None stays None, everything else goes through int()' % (n, len(combos)))
     if not found:
         raise AnalysisError('anchor vanished: no node class returns slice(...)')
+    # ... and the bounds sit in the slots they were written in: `a[x::y]` has an empty middle slot.  The productions of the slice
+    # non-terminal say which slots are filled; the tree must put each written bound into the field of its slot and a None
+    # literal (or the field's None default) into the others
+    g = C.grammar(F)
+    lm = C.lexmodel(F)
+    T = C.templates(F)
+    colon = {s_ for s_, tx in lm.token_texts.items() if tx == {':'}}
+    slice_classes = set()
+    for cls in om.op_classes(F):
+        if (cls + '.eval') in F.functions and any(isinstance(p.outcome[1], tuple) and p.outcome[1][:1] == ('call',) and p.outcome[1][2] == SLICE
+                                                  for p in om.eval_paths(F, cls) if p.normal):
+            slice_classes.add(cls)
+
+    def is_none_node(v):
+        if isinstance(v, tuple) and v[:1] == ('default',):
+            return True
+        if isinstance(v, tuple) and v[:1] == ('new',):
+            return any(fv == ('const', None) for _fn, fv in v[2]) and len(v[2]) == 1
+        return v == ('const', None)
+    for t in T.all():
+        if not t.inlined or t.raises is not None:
+            continue
+        for pos, pi in t.inlined:
+            sp = g.productions[pi]
+            if not any(s_ in colon for s_ in sp.rhs):
+                continue
+            slots, cur = [], None
+            for j, s_ in enumerate(sp.rhs, 1):
+                if s_ in colon:
+                    slots.append(cur)
+                    cur = None
+                else:
+                    cur = '%s.%d' % (pos, j)
+            slots.append(cur)
+            for cls, flds in A.new_nodes(A.strip_ids(t.result)):
+                if cls not in slice_classes:
+                    continue
+                fvals = [fv for _fn, fv in flds]
+                problems = []
+                for k, want in enumerate(slots):
+                    got = fvals[k] if k < len(fvals) else ('default',)
+                    if want is None:
+                        if not is_none_node(got):
+                            problems.append('slot %d is empty in `%s` but the node receives %s there' % (k + 1, sp, show(got)))
+                    elif not (isinstance(got, tuple) and got[:1] == ('sym',) and got[1] == want):
+                        problems.append('slot %d of `%s` holds $%s but the node receives %s there' % (k + 1, sp, want, show(got)))
+                for k in range(len(slots), len(fvals)):
+                    if not is_none_node(fvals[k]):
+                        problems.append('`%s` has %d slot(s) but field %d of the node receives %s' % (sp, len(slots), k + 1, show(fvals[k])))
+                chk.require(not problems, R6, 'slots of ' + t.key, '%s:%d' % (g.module.rel, t.prod.line),
+                            '; '.join(problems[:2]) or 'every written bound in the field of its slot, None elsewhere')
 
 
 def _r4_r5(chk: Check) -> None:
